@@ -32,6 +32,7 @@ type renStep struct {
 	Rep    int      `json:",omitempty"` // Reader: the payload is Text repeated Rep times (0 = once)
 	RMode  int      `json:",omitempty"` // Reader: 0 bytes.Reader, 1 final bytes together with io.EOF, 2 one byte per Read, 3 half of the buffer per Read
 	KnownN bool     `json:",omitempty"` // Reader: content length passed (else -1)
+	Head   bool     `json:",omitempty"` // the request is a HEAD request (same route, same handler)
 	After  string   `json:",omitempty"` // hex: afterwards the handler (a relabelling middleware) calls c.Header("Content-Type", After)
 	FailAt int      `json:",omitempty"` // 0: healthy recorder; k: the writer's k-th Write fails
 	Mode   int      `json:",omitempty"` // 0 broken from then on, (0, err); 1 broken from then on, short write; 2 only that one Write fails
@@ -108,6 +109,18 @@ func genRenStep(r *hx.Rand) renStep {
 		s.Op = "JSON"
 		s.J = genJsn(r)
 	}
+	s.Head = r.Chance(1, 10)
+	if r.Chance(1, 8) { // status codes that carry no body on the wire: the helper's own output is still the documented one
+		code := hx.Pick(r, []int{204, 304, 205, 100 + 99})
+		switch {
+		case s.F != nil:
+			s.F.Code = code
+		case s.J != nil:
+			s.J.Code = code
+		case s.Op != "NoContent":
+			s.Code = code
+		}
+	}
 	if r.Chance(1, 5) {
 		s.After = hex.EncodeToString([]byte(hx.Pick(r, []string{"text/plain; charset=utf-8", "application/vnd.api+json", "text/html", "x\r\ny"})))
 	}
@@ -160,7 +173,11 @@ func runRenStep(s renStep) (o renObs) {
 	if s.FailAt > 0 {
 		w = &flakyWriter{rec: rec, failAt: s.FailAt, mode: s.Mode}
 	}
-	req := httptest.NewRequest(http.MethodGet, "/c19", nil)
+	method := http.MethodGet
+	if s.Head {
+		method = http.MethodHead
+	}
+	req := httptest.NewRequest(method, "/c19", nil)
 	script = func(c *router.Context) {
 		defer func() {
 			if p := recover(); p != nil {
@@ -285,6 +302,9 @@ func emitRen(id string, k *renCase, st *hx.Stats) string {
 			st.Count("R_op_" + s.Op)
 			if s.After != "" {
 				st.Count("R_content_type_relabelled_afterwards")
+			}
+			if s.Head {
+				st.Count("R_head_request")
 			}
 			if s.FailAt > 0 {
 				st.Count("R_flaky_writer_mode_" + strconv.Itoa(s.Mode) + "_at_" + strconv.Itoa(s.FailAt))
